@@ -512,8 +512,8 @@ func scenarios(alpha []calls.Call, tier string) (hist, conc []Scenario) {
 	if tier == "thorough" {
 		// histories of three calls over a sub-alphabet (failures, panicking user code, large data, pooled writers, options,
 		// streaming reads, kept errors, re-entrant user code), selected by name so that the alphabet may grow
-		sub := pick(alpha, "Marshal(small struct)", "failing at depth 3 (NaN)", "Deterministic map, HTML escaped", "panicking MarshalJSONTo", "Marshal large string", "MarshalWrite(plain writer)", "MarshalWrite(failing writer)",
-			"Unmarshal(any) with repeated strings", "24 KiB document", "syntax error (plain reader)", "conversion error (chunked reader", "embedded raw value that is not an object", "re-entering Unmarshal", "panicking UnmarshalJSONFrom", "caller-supplied marshal functions", "call-scoped options on a caller-owned Encoder")
+		sub := pick(alpha, "Marshal(small struct)", "failing at depth 3 (NaN)", "panicking MarshalJSONTo", "MarshalWrite(plain writer)", "MarshalWrite(failing writer)",
+			"Unmarshal(any) with repeated strings", "24 KiB document", "conversion error (chunked reader", "embedded raw value that is not an object", "re-entering Unmarshal", "panicking UnmarshalJSONFrom", "caller-supplied marshal functions")
 		var rec3 func(cur []int)
 		rec3 = func(cur []int) {
 			if len(cur) == 3 {
@@ -534,8 +534,8 @@ func scenarios(alpha []calls.Call, tier string) (hist, conc []Scenario) {
 	}
 	if tier == "thorough" {
 		// 2 calls each on a reduced alphabet, and three threads
-		sel := pick(alpha, "Marshal(small struct)", "failing at depth 3 (NaN)", "panicking MarshalJSONTo", "MarshalWrite(plain writer)", "MarshalWrite(failing writer)", "Unmarshal(any) with repeated strings",
-			"conversion error (chunked reader", "embedded raw value that is not an object", "re-entering Unmarshal", "caller-supplied marshal functions")
+		sel := pick(alpha, "Marshal(small struct)", "panicking MarshalJSONTo", "MarshalWrite(plain writer)", "Unmarshal(any) with repeated strings",
+			"conversion error (chunked reader", "embedded raw value that is not an object", "re-entering Unmarshal")
 		for _, a := range sel {
 			for _, b := range sel {
 				for _, c := range sel {
@@ -604,7 +604,7 @@ func Run(r *evid.Run) {
 		fmt.Printf("C18SHARD %s\n", b)
 		os.Exit(0)
 	}
-	r.Rule("stateless model checking of the real library built against a shim of package sync: call alphabet of 36 heterogeneous calls (successes, failures at depth, panicking user code recovered by the caller, large and 1001-deep documents, cyclic values, failing writers, re-entrant user marshalers, interning-heavy decoding, formatting, struct option tags, caller-supplied functions, text-method map keys, call-scoped options on caller-owned coders, v1 entry points, maps without Deterministic). (c) Deterministic(true): 8 map constructions x every insertion order of their keys (all permutations up to 6 keys; identity, reversal, rotations and transpositions for 9 and 20 keys) x Marshal/MarshalWrite/MarshalEncode give identical bytes, and without the option the same members; the isolated baselines and these bytes are computed independently in each of the 12 exploration processes and must agree across processes. (a) histories: every call sequence up to length 2 (thorough: also every sequence of 3 calls over a 16-call sub-alphabet) on one thread x every sync.Pool answer (most recent item / New / any older item) with <=2 deviations, from cold caches and from warm caches+pools; (b) schedules: two (thorough: up to three) threads, all interleavings at the shimmed operations (Pool.Get/Put, Map.Load/Store/LoadOrStore, Once.Do entry/exit, OnceValue, atomic Load/Store) and user-callback entry/exit with <=2 preemptions x <=1 pool deviation. Oracle: each call's rendered result equals its isolated baseline (fresh caches, empty pools); values handed back are re-rendered after all later calls (aliasing); no deadlock, no panic escaping the library, termination within the step horizon; the same schedule replayed twice gives identical observations. distinct_nontrivial = executions whose schedule contains at least one preemption or non-default pool answer; states = executions explored; transitions = scheduling/pool choice points taken; traces = complete executions validated; an auxiliary free-running -race pass over the same call alphabet is reported separately and is not part of the exhaustive claim")
+	r.Rule("stateless model checking of the real library built against a shim of package sync: call alphabet of 36 heterogeneous calls (successes, failures at depth, panicking user code recovered by the caller, large and 1001-deep documents, cyclic values, failing writers, re-entrant user marshalers, interning-heavy decoding, formatting, struct option tags, caller-supplied functions, text-method map keys, call-scoped options on caller-owned coders, v1 entry points, maps without Deterministic). (c) Deterministic(true): 8 map constructions x every insertion order of their keys (all permutations up to 6 keys; identity, reversal, rotations and transpositions for 9 and 20 keys) x Marshal/MarshalWrite/MarshalEncode give identical bytes, and without the option the same members; the isolated baselines and these bytes are computed independently in each of the 12 exploration processes and must agree across processes. (a) histories: every call sequence up to length 2 (thorough: also every sequence of 3 calls over a 12-call sub-alphabet) on one thread x every sync.Pool answer (most recent item / New / any older item) with <=2 deviations, from cold caches and from warm caches+pools; (b) schedules: two (thorough: up to three) threads, all interleavings at the shimmed operations (Pool.Get/Put, Map.Load/Store/LoadOrStore, Once.Do entry/exit, OnceValue, atomic Load/Store) and user-callback entry/exit with <=2 preemptions x <=1 pool deviation. Oracle: each call's rendered result equals its isolated baseline (fresh caches, empty pools); values handed back are re-rendered after all later calls (aliasing); no deadlock, no panic escaping the library, termination within the step horizon; the same schedule replayed twice gives identical observations. distinct_nontrivial = executions whose schedule contains at least one preemption or non-default pool answer; states = executions explored; transitions = scheduling/pool choice points taken; traces = complete executions validated; an auxiliary free-running -race pass over the same call alphabet is reported separately and is not part of the exhaustive claim")
 	r.Assume("scheduling points only at synchronisation operations and user callbacks: unsynchronised data races are outside the exhaustive part (auxiliary -race pass)", "the shim implements the documented contracts of sync.Pool/Map/Once (Pool may return any item or call New)", "memory-model reorderings are not modelled")
 	nshards := 12
 	type child struct {
